@@ -741,6 +741,101 @@ fn depth_t<C: Suite>(_m: &M10T<C>, s: &TSt) -> usize {
     }
 }
 
+// ---- valid proofs whose two points stand in a simple relation ---------------------------------------------------
+//
+// u = x*H(m) and v = -(x+y)*sk*H(m) are multiples of the same point, so for every non-zero c there are valid proofs with
+// u = c*v: choose x, derive y (for the timestamp variant y = H(u || t) is known once x is), and take the key
+// sk = -x / (c*(x+y)). A verifier that tells "u and v cannot be equal / opposite / the double of one another" is wrong
+// for exactly these honest proofs. The reference decides every case.
+
+#[derive(Clone, Copy, Debug, PartialEq, Eq, Hash, Serialize, Deserialize)]
+pub struct RelSt {
+    s: Scheme,
+    /// u = c * v with c = REL[rel]
+    rel: usize,
+    /// 0 interactive with a hash-derived challenge, 1 timestamp without a timeout, 2 timestamp within a timeout
+    variant: u8,
+    x: u8,
+}
+
+const REL: [(&str, i64); 6] = [("u == v", 1), ("u == -v", -1), ("u == 2v", 2), ("v == 2u", 0 /* c = 1/2 */), ("u == -2v", -2), ("u == 3v", 3)];
+
+pub struct M10Rel<C: Suite> {
+    seed: u64,
+    _c: PhantomData<C>,
+}
+
+impl<C: Suite> Model for M10Rel<C> {
+    type State = Option<RelSt>;
+    type Action = RelSt;
+    fn name(&self) -> String {
+        format!("c10-valid-proofs-with-related-points/{}", C::G)
+    }
+    fn init(&self) -> Vec<Option<RelSt>> {
+        vec![None]
+    }
+    fn actions(&self, st: &Option<RelSt>) -> Vec<RelSt> {
+        if st.is_some() {
+            return vec![];
+        }
+        let mut v = vec![];
+        for s in [Scheme::Basic, Scheme::Pop] {
+            for rel in 0..REL.len() {
+                for variant in 0..3u8 {
+                    for x in 0..2u8 {
+                        v.push(RelSt { s, rel, variant, x });
+                    }
+                }
+            }
+        }
+        v
+    }
+    fn step(&self, _s: &Option<RelSt>, a: &RelSt) -> Option<Option<RelSt>> {
+        Some(Some(*a))
+    }
+    fn describe(&self, st: &Option<RelSt>) -> String {
+        format!("{} valid proof of knowledge crafted so that {:?}", C::G, st.map(|s| (s.s.name(), REL[s.rel].0, ["interactive", "timestamp, no timeout", "timestamp within the timeout"][s.variant as usize], s.x)))
+    }
+    fn required_outcomes(&self) -> Vec<String> {
+        vec!["related-points:accepted".into()]
+    }
+    fn check(&self, st: &Option<RelSt>, o: &mut Obs) {
+        use bls12_381_plus::ff::Field as _;
+        let Some(st) = st else { return };
+        o.nontrivial = true;
+        let g = C::G;
+        let msg = data(self.seed, "c10-related-points-msg", 24);
+        let a = <C::R as rf::RefSuite>::hash_to_sig(&msg, rf::sig_dst::<C::R>(st.s));
+        let x = rf::hash_to_scalar(&data(self.seed, &format!("c10-related-x-{}", st.x), 32), rf::SALT_POK);
+        let u = a * x;
+        let t = CLOCK0;
+        let y = if st.variant == 0 { rf::hash_to_scalar(&data(self.seed, "c10-related-y", 32), rf::SALT_POK) } else { rf::pok_y::<C::R>(&u, t) };
+        let small = |i: i64| if i < 0 { -bls12_381_plus::Scalar::from((-i) as u64) } else { bls12_381_plus::Scalar::from(i as u64) };
+        let c = if REL[st.rel].1 == 0 { small(2).invert().unwrap() } else { small(REL[st.rel].1) };
+        let sk = -x * (c * (x + y)).invert().unwrap();
+        let rpk = rf::sk_to_pk::<C::R>(&sk);
+        let v = -(a * (sk * (x + y)));
+        assert!(u == v * c, "crafted relation does not hold");
+        let want = rf::pok_verify::<C::R>(&u, &v, &rpk, &y, &msg, st.s);
+        let lu = pt_from::<SgP<C>>(&rf::enc(&u)).unwrap();
+        let lv = pt_from::<SgP<C>>(&rf::enc(&v)).unwrap();
+        let pk = sk_from_be::<C>(&rf::scalar_to_be(&sk)).unwrap().public_key();
+        let proof = mk_pok::<C>(st.s, lu, lv);
+        let r = match st.variant {
+            0 => guard(|| proof.verify(pk, &msg, ProofCommitmentChallenge(sc_from_be::<C>(&rf::scalar_to_be(&y))))),
+            _ => {
+                let p = ProofOfKnowledgeTimestamp::<C> { proof, timestamp: t };
+                let to = if st.variant == 1 { None } else { Some(60_000) };
+                with_env(vec![], Some(t + 1_000), || p.verify(pk, &msg, to))
+            }
+        };
+        o.calls(1);
+        let acc = matches!(r, Ok(Ok(())));
+        o.outcome(if acc { "related-points:accepted" } else { "related-points:rejected" });
+        o.expect(&format!("C10:valid-proof-with-related-points:{}:{}:{}:{}", g, st.s.name(), REL[st.rel].0, ["interactive", "timestamp", "timestamp-with-timeout"][st.variant as usize]), acc == want && r.is_ok() && want, "accept (the reference accepts)", &verdict(&r));
+    }
+}
+
 pub fn models(tier: Tier, seed: u64) -> Vec<Box<dyn DynModel>> {
     vec![
         bounded(M10::<Bls12381G1Impl>::new(tier, seed), 1),
@@ -749,6 +844,7 @@ pub fn models(tier: Tier, seed: u64) -> Vec<Box<dyn DynModel>> {
         bounded_cross(M10T::<Bls12381G2Impl>::new(tier, seed), 3, depth_t::<Bls12381G2Impl>),
     ]
     .into_iter()
+    .chain([bounded(M10Rel::<Bls12381G1Impl> { seed, _c: PhantomData }, 1), bounded(M10Rel::<Bls12381G2Impl> { seed, _c: PhantomData }, 1)])
     .chain(crate::props::tsurf::models("C10", tier, seed))
     .collect()
 }
